@@ -17,6 +17,10 @@ func Decode(b []byte) (*Message, error) {
 	}
 
 	hlen := b[2]
+	if hlen > 16 {
+		// chaddr is a 16 byte field, anything longer would read into sname/file.
+		return nil, fmt.Errorf("invalid hlen")
+	}
 	msg := &Message{
 		Op:       b[0],
 		Htype:    b[1],
